@@ -35,7 +35,7 @@ ConvLattice ==
      ConvFits(c) /\ Keep(c)}
 DeconvLattice ==
   {c \in [kind : {"deconv"}, c : 1..2, h : 2..(MaxHW-1), w : 2..(MaxHW-1), f : 1..2, kh : 1..3, kw : 1..3,
-          sh : 1..2, sw : 1..2, ph : 0..1, pw : 0..1, dh : {1}, dw : {1}, act : {"linear", "relu"}, bias : {FALSE}] :
+          sh : 1..2, sw : 1..2, ph : 0..2, pw : 0..2, dh : {1}, dw : {1}, act : {"linear", "relu"}, bias : {FALSE}] :
      DeconvFits(c) /\ Keep(c)}
 PoolLattice ==
   {c \in [kind : {"pool"}, c : 1..2, h : 3..MaxHW, w : 3..MaxHW, f : {1}, kh : 1..3, kw : 1..3,
